@@ -25,8 +25,10 @@ class C19(Property):
             "input and output is read back with get_val and compared bit for bit; run_model is "
             "called and the outputs compared with the recorded ones. Non-trivial: state B differs "
             "from state A in some recorded variable; distinct by (seed, variant).")
-    assumptions = ["restored values compared exactly (same doubles); re-run outputs at 1e-10 "
-                   "relative (1e-7 with iterative nonlinear solvers)"]
+    assumptions = ["restored outputs compared exactly (same doubles), inputs at 1e-12 (unit round trip; "
+                   "1e-7 inside a solver cycle, where the recorded input lags its source by the "
+                   "convergence tolerance); re-run outputs at 1e-10 relative (1e-7 with iterative "
+                   "nonlinear solvers)"]
     trusted_extra = ["sqlite storage and the JSON/blob round trip of the recorder (values compared)"]
     level_text = ("load_case is modelled as a sequence of stores on distinct variables followed by a "
                   "run-once pass; proved in Lean: every recorded variable reads back its recorded value "
@@ -79,10 +81,10 @@ class C19(Property):
         sysobj = prob.model._get_subsystem(path)
 
         def load_case(self, cs):
+            # restores the subsystem's own outputs (its inputs are connected: they take the
+            # restored values of their sources; setting a connected input would write the source
+            # through the inverse unit conversion and disturb it by an ulp)
             pre = self.pathname + '.'
-            for abs_name in cs.inputs.absolute_names() if cs.inputs is not None else []:
-                if abs_name.startswith(pre):
-                    prob.model.set_val(abs_name, cs.inputs[abs_name])
             for abs_name in cs.outputs.absolute_names():
                 if abs_name.startswith(pre):
                     prob.model.set_val(abs_name, cs.get_val(abs_name))
@@ -180,8 +182,11 @@ class C19(Property):
                         'loaded': impl['loaded_out'][n], 'recorded': v}
         for n, v in impl['a_in'].items():
             a, b = np.array(impl['loaded_in'][n]), np.array(v)
-            # inputs go through the unit conversion back and forth: a few ulps
-            if a.shape != b.shape or not np.all(np.abs(a - b) <= 1e-12 * np.maximum(1.0, np.abs(b))):
+            # inputs go through the unit conversion back and forth: a few ulps.  Inside a cycle the
+            # recorded input is the value transferred before the last solver iteration, while
+            # get_val reads the restored source: they differ by the solver's convergence tolerance.
+            itol = 1e-7 if case['cfg']['nonlinear'] else 1e-12
+            if a.shape != b.shape or not np.all(np.abs(a - b) <= itol * np.maximum(1.0, np.abs(b))):
                 return {'what': 'input after load_case differs from the recorded value', 'var': n,
                         'loaded': impl['loaded_in'][n], 'recorded': v}
         tol = 1e-7 if case['cfg']['nonlinear'] else RTOL
